@@ -14,9 +14,6 @@ package mvp6_2
 //@ func (*controlUnit).cycle
 //@   havoc
 //@   preserves CPU, []*executeUnit, []*writeUnit, fetchUnit, decodeUnit, controlUnit, executeUnit, writeUnit
-//@ func (*memoryManagementUnit).flush
-//@   havoc
-//@   preserves CPU, []*executeUnit, []*writeUnit, fetchUnit, decodeUnit, controlUnit, executeUnit, writeUnit
 
 //@ func (*fetchUnit).isEmpty
 //@   inline
@@ -71,6 +68,7 @@ package mvp6_2
 // done and (second exit clause) every execute unit idle. (C12) the cycle
 // counter is positive when the loop is left.
 //@ func (*CPU).Run
+//@   assume-before (*memoryManagementUnit).flush: wfMMU(m.memoryManagementUnit) && m.memoryManagementUnit.l3.lineLength == 64 && allocated(m.memoryManagementUnit.ctx.Memory) && (forall j :: 0 <= j && j < len(m.memoryManagementUnit.l3.lines) ==> !sameArray(m.memoryManagementUnit.l3.lines[j].Data, m.memoryManagementUnit.ctx.Memory) && int32(m.memoryManagementUnit.l3.lines[j].Boundary[0]) <= 1073741824)
 //@   requires wired(m)
 //@   assume-before (*Context).Commit: m.ctx.Registers != nil && m.ctx.Transaction != nil
 //@   nooverflow cycle, m.counterFlush
@@ -94,3 +92,70 @@ package mvp6_2
 //@   loop 14: invariant cycle >= 1 && wired(m)
 //@   loop 15: invariant cycle >= 1 && wired(m)
 //@   loop 16: invariant cycle >= 1 && wired(m)
+
+// ---------------------------------------------------------------- memory management unit (C05)
+// (instantiated from /verif/contracts/proc/mvp3 by gen: same text, same proof)
+//@ spec func wfMMU(u *memoryManagementUnit) bool = u != nil && u.ctx != nil && u.l3 != nil && u.l1i != nil && comp.wfCache(u.l3) && comp.wfCache(u.l1i) && len(u.ctx.Memory) <= 1073741824
+
+// fill: the fetched line is a copy of memory, zero-padded past the end.
+//@ func (*memoryManagementUnit).fetchCacheLine
+//@   requires u != nil && u.ctx != nil && 0 <= addr && addr <= 1073741824 && allocated(u.ctx.Memory)
+//@   ensures len(result) == 64 && fresh(result)
+//@   ensures forall k :: 0 <= k && k < 64 ==> result[k] == (int(addr) + k < len(u.ctx.Memory) ? u.ctx.Memory[int(addr) + k] : 0)
+//@   assigns nothing
+//@   loop 0: invariant 0 <= i && i <= 64 && len(memory) == i && cap(memory) >= 64 && fresh(memory) && u.ctx == old(u.ctx) && !sameArray(memory, u.ctx.Memory)
+//@   loop 0: invariant forall k :: 0 <= k && k < i ==> memory[k] == (int(addr) + k < len(u.ctx.Memory) ? u.ctx.Memory[int(addr) + k] : 0)
+
+//@ func (*memoryManagementUnit).getFromMemory
+//@   requires u != nil && u.ctx != nil && (forall k :: 0 <= k && k < len(addrs) ==> 0 <= addrs[k] && int(addrs[k]) < len(u.ctx.Memory))
+//@   ensures len(result) == len(addrs) && (forall k :: 0 <= k && k < len(addrs) ==> result[k] == u.ctx.Memory[addrs[k]])
+//@   assigns nothing
+//@   loop 0: invariant len(memory) == _idx0 && cap(memory) >= len(addrs) && fresh(memory) && u.ctx == old(u.ctx) && !sameArray(memory, u.ctx.Memory) && !sameArray(memory, addrs)
+//@   loop 0: invariant forall k :: 0 <= k && k < _idx0 ==> memory[k] == u.ctx.Memory[addrs[k]]
+
+// write-miss / write-back: the bytes of data that fall inside memory are
+// stored at addr.., nothing else changes.
+//@ func (*memoryManagementUnit).writeToMemory
+//@   requires u != nil && u.ctx != nil && 0 <= int32(addr) && int32(addr) <= 1073741824 && len(data) <= 1048576 && len(u.ctx.Memory) <= 1073741824 && !sameArray(data, u.ctx.Memory)
+//@   ensures u.ctx.Memory == old(u.ctx.Memory)
+//@   ensures forall a :: lo(u.ctx.Memory) + int(addr) <= a && a < lo(u.ctx.Memory) + int(addr) + len(data) && a < hi(u.ctx.Memory) ==> at(u.ctx.Memory, a) == old(data[a - lo(u.ctx.Memory) - int(addr)])
+//@   ensures forall a :: lo(u.ctx.Memory) <= a && a < hi(u.ctx.Memory) && !(lo(u.ctx.Memory) + int(addr) <= a && a < lo(u.ctx.Memory) + int(addr) + len(data)) ==> at(u.ctx.Memory, a) == old(at(u.ctx.Memory, a))
+//@   assigns u.ctx.Memory[*]
+//@   loop 0: invariant u.ctx == old(u.ctx) && u.ctx.Memory == old(u.ctx.Memory)
+//@   loop 0: invariant forall a :: lo(u.ctx.Memory) + int(addr) <= a && a < lo(u.ctx.Memory) + int(addr) + _idx0 ==> at(u.ctx.Memory, a) == old(data[a - lo(u.ctx.Memory) - int(addr)])
+//@   loop 0: invariant forall a :: lo(u.ctx.Memory) <= a && a < hi(u.ctx.Memory) && !(lo(u.ctx.Memory) + int(addr) <= a && a < lo(u.ctx.Memory) + int(addr) + _idx0) ==> at(u.ctx.Memory, a) == old(at(u.ctx.Memory, a))
+//@   loop 0: invariant forall a :: lo(data) <= a && a < hi(data) ==> at(data, a) == old(at(data, a))
+
+// write hit: delegated to LRUCache.Write; the range must lie inside one line
+// (an aligned word straddling two unaligned lines indexes past Data and
+// panics: known finding F15, excluded here by the precondition and recorded
+// at the call site of writeExecutionMemoryChangesToL1D).
+//@ func (*memoryManagementUnit).writeToL3
+//@   requires wfMMU(u) && comp.distinctData(u.l3) && 0 <= addr && addr <= 1073741824 && len(data) <= 1048576
+//@   requires exists i :: comp.firstCover(u.l3, addr, i)
+//@   requires forall i :: comp.firstCover(u.l3, addr, i) ==> int(addr) + len(data) <= int(u.l3.lines[i].Boundary[1]) && !sameArray(data, u.l3.lines[i].Data)
+//@   ensures forall i, a :: comp.firstCover(u.l3, addr, i) && comp.wbase(u.l3, addr, i) <= a && a < comp.wbase(u.l3, addr, i) + len(data) ==> at(u.l3.lines[i].Data, a) == old(data[a - comp.wbase(u.l3, addr, i)])
+//@   ensures u.l3.lines == old(u.l3.lines)
+//@   assigns comp.Delta, all []int8
+
+// final flush: every byte of every resident line is in memory afterwards and
+// bytes not covered by a resident line are untouched. With overlapping lines
+// the last line written wins (known findings F14/F16: region "lines overlap").
+//@ spec func memAt(u *memoryManagementUnit, x int) int8 = at(u.ctx.Memory, lo(u.ctx.Memory) + x)
+//@ func (*memoryManagementUnit).flush
+//@   requires wfMMU(u) && u.l3.lineLength == 64 && allocated(u.ctx.Memory) && (forall j :: 0 <= j && j < len(u.l3.lines) ==> !sameArray(u.l3.lines[j].Data, u.ctx.Memory) && int32(u.l3.lines[j].Boundary[0]) <= 1073741824)
+//@   nooverflow additionalCycles
+//@   ensures result == latency.MemoryAccess * len(u.l3.lines)
+//@   ensures forall j, k :: 0 <= j && j < len(u.l3.lines) && 0 <= k && k < 64 && int(u.l3.lines[j].Boundary[0]) + k < len(u.ctx.Memory) ==> memAt(u, int(u.l3.lines[j].Boundary[0]) + k) == u.l3.lines[j].Data[k]
+//@   ensures forall x :: 0 <= x && x < len(u.ctx.Memory) && x <= 2147483647 && (forall j :: 0 <= j && j < len(u.l3.lines) ==> !comp.covers(u.l3.lines[j], int32(x))) ==> memAt(u, x) == old(memAt(u, x))
+//@   finding F14-F16-overlapping-lines: !comp.disjointLines(u.l3)
+//@   assigns u.ctx.Memory[*]
+//@   loop 0: invariant u.ctx == old(u.ctx) && u.l3 == old(u.l3) && u.ctx.Memory == old(u.ctx.Memory) && additionalCycles == latency.MemoryAccess * _idx0 && _range0 == u.l3.lines
+//@   loop 0: invariant forall j, a :: 0 <= j && j < len(u.l3.lines) && lo(u.l3.lines[j].Data) <= a && a < hi(u.l3.lines[j].Data) ==> at(u.l3.lines[j].Data, a) == old(at(u.l3.lines[j].Data, a))
+//@   loop 0: invariant comp.disjointLines(u.l3) ==> (forall j, k :: 0 <= j && j < _idx0 && 0 <= k && k < 64 && int(u.l3.lines[j].Boundary[0]) + k < len(u.ctx.Memory) ==> memAt(u, int(u.l3.lines[j].Boundary[0]) + k) == u.l3.lines[j].Data[k])
+//@   loop 0: invariant forall x :: 0 <= x && x < len(u.ctx.Memory) && x <= 2147483647 && (forall j :: 0 <= j && j < _idx0 ==> !comp.covers(u.l3.lines[j], int32(x))) ==> memAt(u, x) == old(memAt(u, x))
+//@   loop 1: invariant 0 <= i && i <= 64 && u.ctx == old(u.ctx) && u.l3 == old(u.l3) && u.ctx.Memory == old(u.ctx.Memory) && additionalCycles == latency.MemoryAccess * (_idx0 + 1) && _range0 == u.l3.lines && 0 <= _idx0 && _idx0 < len(u.l3.lines)
+//@   loop 1: invariant forall j, a :: 0 <= j && j < len(u.l3.lines) && lo(u.l3.lines[j].Data) <= a && a < hi(u.l3.lines[j].Data) ==> at(u.l3.lines[j].Data, a) == old(at(u.l3.lines[j].Data, a))
+//@   loop 1: invariant comp.disjointLines(u.l3) ==> (forall j, k :: 0 <= j && j < _idx0 && 0 <= k && k < 64 && int(u.l3.lines[j].Boundary[0]) + k < len(u.ctx.Memory) ==> memAt(u, int(u.l3.lines[j].Boundary[0]) + k) == u.l3.lines[j].Data[k])
+//@   loop 1: invariant i > 0 ==> (forall k :: 0 <= k && k < 64 && int(u.l3.lines[_idx0].Boundary[0]) + k < len(u.ctx.Memory) ==> memAt(u, int(u.l3.lines[_idx0].Boundary[0]) + k) == u.l3.lines[_idx0].Data[k])
+//@   loop 1: invariant forall x :: 0 <= x && x < len(u.ctx.Memory) && x <= 2147483647 && (forall j :: 0 <= j && j < _idx0 ==> !comp.covers(u.l3.lines[j], int32(x))) && !comp.covers(u.l3.lines[_idx0], int32(x)) ==> memAt(u, x) == old(memAt(u, x))
